@@ -4,7 +4,7 @@
 # run the property's check (quick, then thorough if quick is silent) plus the cross-checks below
 # through the development override, write seeded/<name>/regress.txt. /repo is not touched.
 set -u
-WT=/tmp/confirm-wt
+WT=${SEED_WT:-/tmp/confirm-wt}; VT=${SEED_VT:-/tmp/seed-vt}; OUT=${SEED_OUT:-/tmp/seed-out}
 declare -A EXTRA=( [C15-m2]="C16" [C18-m2]="C17" [C08-m1]="C09" [C17-r2m2]="C29" [C08-r2m1]="C09" [C08-r2m2]="C09" [C19-r2m2]="C09" )
 export CARGO_NET_OFFLINE=true
 [ -d $WT ] || git -C /repo worktree add --detach $WT HEAD >/dev/null 2>&1
@@ -21,10 +21,10 @@ for name in $names; do
   for id in $prop ${EXTRA[$key]:-}; do
     for tier in quick thorough; do
       s=$(date +%s)
-      VERIF_REPO_OVERRIDE=$WT VERIF_TARGET_DIR=/tmp/seed-vt VERIF_OUT_DIR=/tmp/seed-out /verif/check $id --tier $tier > /tmp/seedregress-$id-$tier.log 2>&1; rc=$?
+      VERIF_REPO_OVERRIDE=$WT VERIF_TARGET_DIR=$VT VERIF_OUT_DIR=$OUT /verif/check $id --tier $tier > $OUT/seedregress-$id-$tier.log 2>&1; rc=$?
       e=$(date +%s)
       echo "check $id $tier: exit $rc ($((e-s)) s)" | tee -a $R
-      grep -E "^VIOLATION|violation-class|^MACHINERY" /tmp/seedregress-$id-$tier.log | head -4 | cut -c1-500 >> $R
+      grep -E "^VIOLATION|violation-class|^MACHINERY" $OUT/seedregress-$id-$tier.log | head -4 | cut -c1-500 >> $R
       [ $rc -ne 0 ] && break
     done
   done
